@@ -8,6 +8,8 @@ use simcommon::{gen, scenario::Scenario, Rng};
 #[derive(Serialize, Deserialize, Clone, Debug, PartialEq)]
 pub enum Op {
     Parse(usize),
+    /// Parse against the second catalogue (same table names, other column types / sizes).
+    ParseAlt(usize),
     Render(usize),
     Reparse(usize),
     DpRewrite(usize),
@@ -23,6 +25,7 @@ impl Op {
     pub fn kind(&self) -> &'static str {
         match self {
             Op::Parse(_) => "parse",
+            Op::ParseAlt(_) => "parse_alt",
             Op::Render(_) => "render",
             Op::Reparse(_) => "reparse",
             Op::DpRewrite(_) => "dp",
@@ -47,6 +50,10 @@ pub struct Workload {
     pub seed: u64,
     pub run: u64,
     pub sc: Scenario,
+    /// A second catalogue with the same table names and other column types, ranges and sizes
+    /// (an application reloading its schema): compiles against it alternate with the first.
+    #[serde(default)]
+    pub sc_alt: Option<Scenario>,
     pub queries: Vec<String>,
     pub threads: Vec<Vec<Op>>,
     pub sched: Sched,
@@ -153,12 +160,19 @@ pub fn generate(seed: u64, run: u64, depth: u32) -> Workload {
         threads.push(ops);
     }
     let sched = if r.chance(0.6) { Sched::Random(r.next_u64()) } else { Sched::Pct(r.next_u64(), 1 + r.usize(4)) };
-    Workload { seed, run, sc, queries, threads, sched }
+    let sc_alt = Some(gen::generate(seed, run ^ 0x5555_5555, "C16").scenario);
+    Workload { seed, run, sc, sc_alt, queries, threads, sched }
 }
 
 fn gen_op(r: &mut Rng, nq: usize, allow_spawn: bool) -> Op {
     match r.weighted(&[40, 12, 10, 8, 4, 8, 4, 5, if allow_spawn { 6 } else { 0 }, 3]) {
-        0 => Op::Parse(r.usize(nq)),
+        0 => {
+            if r.chance(0.25) {
+                Op::ParseAlt(r.usize(nq))
+            } else {
+                Op::Parse(r.usize(nq))
+            }
+        }
         1 => Op::Render(r.usize(nq)),
         2 => Op::Reparse(r.usize(nq)),
         3 => Op::DpRewrite(r.usize(nq)),
